@@ -167,6 +167,7 @@ func runCase(c *Case) ([]F, map[string]interface{}) {
 		obs["x"] = xs.Coq()
 		obs["itypes"] = vh.CoqJSON(top.Schema.Types)
 	}
+	obs["gofields"] = g.GoFieldsCoq()
 	var resps []string
 
 	if c.QSeed != 0 {
@@ -470,7 +471,11 @@ func main() {
 			}
 		}
 		nResp += len(rs)
-		terms = append(terms, fmt.Sprintf("(%d, mk14 %s %s %s %s %s %s %s)", idx, sch, isch, vh.CoqList(qs), x, itypes, vh.CoqList(rs), scalars))
+		gofields, _ := res.Obs["gofields"].(string)
+		if gofields == "" {
+			gofields = "[]"
+		}
+		terms = append(terms, fmt.Sprintf("(%d, mk14 %s %s %s %s %s %s %s %s)", idx, sch, isch, vh.CoqList(qs), x, itypes, vh.CoqList(rs), scalars, gofields))
 	}
 	if o.Search != "" {
 		run.Finish()
@@ -483,7 +488,7 @@ func main() {
 		if end > len(terms) {
 			end = len(terms)
 		}
-		run.WriteCasesV(fmt.Sprintf("cases_%d.v", s), []string{"Lib.Json", "GqlTyping.Types", "GqlTyping.Parse", "GqlTyping.Typing", "GqlTyping.Introspect", "GqlTyping.Check14"}, "",
+		run.WriteCasesV(fmt.Sprintf("cases_%d.v", s), []string{"Lib.Json", "GqlTyping.Types", "GqlTyping.Parse", "GqlTyping.Typing", "GqlTyping.Introspect", "GqlTyping.GoTypes", "GqlTyping.Check14"}, "",
 			"mismatches_c14", 0, terms[s:end])
 	}
 	run.Finish()
